@@ -199,7 +199,12 @@ class C11Engine(Engine):
                 res['steps'] += 1
 
         nsched = tape.rng(4, 10)
+        main_tape = tape
+        sch = None
         for si in range(nsched):
+            tape = main_tape.fork('s%d' % si)       # one independent segment per schedule
+            if tape.absent:
+                continue
             sch = layout.make_schedule(tape, model)
             bump(res['probes'], 'channel_' + sch.channel)
             if max(sch.shape['files_per_ns']) > 1:
@@ -276,7 +281,7 @@ class C11Engine(Engine):
                 res['states'].append('%s|%s|%s' % (layout.shape_key(sch), 'err' if err_kind else 'ok', outcome))
         res['sample'] = {'files': [fn for fn, _ in ref_files], 'error_model': err_kind,
                          'schedules': nsched, 'backends': [c[0] for c in chosen],
-                         'last_schedule': sch.shape}
+                         'last_schedule': sch.shape if sch is not None else None}
 
     def _confirm(self, scratch, tag, i, bs, ref_files, sch, tape):
         """A byte difference counts only if both layouts are stable under heap perturbation."""
